@@ -54,10 +54,12 @@ def _close_token(container):
 
 def binding_tokens(segs, value_text: str, created: int, attrpath: bool) -> tuple:
     """Token sequence of the binding that an insert is expected to add."""
+    # the value goes on lines of its own so that a trailing `# comment` in it cannot swallow what follows
+    vt = "\n" + value_text + "\n"
     if attrpath or created == 0:
-        text = ".".join(gen.fmt_name(s) for s in segs) + " = " + value_text + ";"
+        text = ".".join(gen.fmt_name(s) for s in segs) + " =" + vt + ";"
     else:
-        inner = gen.fmt_name(segs[-1]) + " = " + value_text + ";"
+        inner = gen.fmt_name(segs[-1]) + " =" + vt + ";"
         for s in reversed(segs[1:-1]):
             inner = gen.fmt_name(s) + " = { " + inner + " };"
         text = gen.fmt_name(segs[0]) + " = { " + inner + " };"
@@ -220,6 +222,8 @@ def check_step(st, *, canonical: bool):
     got = [(text, bisect.bisect_left(astarts, s)) for text, s, e in after.comments()]
     gi = 0
     opt = list(optional)
+    if st.op.get("value"):
+        opt.extend(c[0] for c in reader.Doc(st.op["value"]).comments())  # comments that came in with the new value
     for text, anchors, rel in must:
         while gi < len(got) and not (got[gi][0] == text and got[gi][1] in anchors):
             if got[gi][0] in opt:
